@@ -194,7 +194,10 @@ def e2e_cases(draw):
     def pats(words, extra=()):
         base = st.one_of(st.sampled_from(list(words) + list(extra)),
                          st.sampled_from(list(words)).map(lambda s: s + '$'),
-                         st.sampled_from(['.', 'zzz', '^t', '_', 'T', '[ab]$', '']))
+                         # (a comma is an ordinary character of a regular expression: counted repetition, classes)
+                         st.sampled_from(list(words)).map(lambda s: s[:-1] + '[%s,_]' % s[-1] if s else s),
+                         st.sampled_from(list(words)).map(lambda s: s + '{1,2}$' if s and s[-1].isalnum() else s),
+                         st.sampled_from(['.', 'zzz', '^t', '_', 'T', '[ab]$', '', '[A,B]$', 'L{1,}']))
         return st.lists(st.one_of(base, base, base.map(lambda p: '!' + p)), max_size=3)
 
     opts = {
